@@ -1,4 +1,8 @@
+import os
+
 SRCS = ["harness/c01_decoder_fuzz.c"]
+# triage aid: a tree with many crashing cases needs more worker restarts to be surveyed completely
+_MAXR = int(os.environ.get("VERIF_C01_MAX_RESTARTS", "400"))
 
 SPEC = {
     "id": "C01",
@@ -14,7 +18,7 @@ SPEC = {
     ],
     "jobs": [
         {"name": "asan", "harness": "c01_decoder_fuzz", "srcs": SRCS, "flavour": "asan", "mode": "fuzz",
-         "cases": {"quick": 6400, "thorough": 320000}, "budget": 10},
+         "cases": {"quick": 6400, "thorough": 320000}, "budget": 10, "max_restarts": _MAXR},
         {"name": "heap", "harness": "c01_decoder_fuzz", "srcs": SRCS, "flavour": "plain", "mode": "heap", "heap": True,
          "cases": {"quick": 640, "thorough": 16000}, "budget": 20},
     ],
